@@ -323,11 +323,39 @@ theorem thrift_vec_reserve_bounded (size : Nat) :
 
 example : thriftVecReserve 2147483647 = 1024 := by decide
 
-/-- **negative result (work amplification)**: `skip` on a list of `bool` performs one loop
-iteration per declared element *without consuming input* (`FieldType::BooleanTrue` carries
-no data), so the six bytes `F1 FF FF FF FF 07` cost `2^31 - 1` iterations. -/
-theorem thrift_skip_bool_list_iterations_not_bounded_by_input :
-    thriftSkipListIterations [0xF1, 0xFF, 0xFF, 0xFF, 0xFF, 0x07] = .ok 2147483647 := by rfl
+/-- **`skip` of a list of `bool` is backed by input**: when it succeeds, the declared number of
+elements is at most the number of bytes that followed the list header, and exactly that many
+bytes are consumed — the work is bounded by the input length (one byte per element). -/
+theorem thrift_skip_bool_list_backed_by_input (bs rest : List Nat)
+    (h : thriftSkipBoolList bs = some (.ok rest)) :
+    ∃ li r0, thriftReadListBegin bs = .ok (li, r0) ∧ li.size ≤ r0.length ∧ rest = r0.drop li.size ∧
+      li.size + rest.length + 1 ≤ bs.length := by
+  unfold thriftSkipBoolList at h
+  cases hl : thriftReadListBegin bs with
+  | error e => simp [hl] at h
+  | ok r =>
+    obtain ⟨li, r0⟩ := r
+    simp only [hl] at h
+    split at h
+    · simp only [Option.some.injEq] at h
+      unfold thriftSkipBytes at h
+      split at h
+      · simp at h
+      · rename_i hlen
+        simp only [Except.ok.injEq] at h
+        obtain ⟨⟨n, h1, h2, h3⟩, _⟩ := thrift_list_begin_progress _ _ _ hl
+        refine ⟨li, r0, rfl, by omega, h.symm, ?_⟩
+        subst h
+        subst h3
+        simp only [List.length_drop] at hlen ⊢
+        omega
+    · simp at h
+
+/-- the six bytes `F1 FF FF FF FF 07` (list of `2^31 - 1` booleans) that used to cost `2^31 - 1`
+loop iterations are now rejected at once: the elements are not there -/
+example : thriftSkipBoolList [0xF1, 0xFF, 0xFF, 0xFF, 0xFF, 0x07] = some (.error .eof) := by rfl
+
+example : thriftSkipBoolList [0x31, 0x01, 0x00, 0x02, 0x55] = some (.ok [0x55]) := by rfl
 
 /-- Avro `BlockDecoder`: count and size are non-negative and the reservation made when the
 size is known is bounded by the bytes actually present (`c = 1`) -/
@@ -581,6 +609,7 @@ theorem constants_tie :
     SHAPE_AVRO_BLOCK_RESERVE_lost = false ∧ SHAPE_AVRO_BLOCK_COUNT_SIGN_lost = false ∧ SHAPE_AVRO_BLOCK_SIZE_SIGN_lost = false ∧
     SHAPE_AVRO_GET_BYTES_BOUND_lost = false ∧ SHAPE_AVRO_FAST_DISPATCH = 0x80 ∧ SHAPE_AVRO_STREAM_ERR_BEFORE_CONSUME = 1 ∧
     SHAPE_TRY_PUSH_CHAR_BOUNDARY = 0x40 ∧ SHAPE_THRIFT_SKIP_BOOL_NO_DATA_lost = false ∧
+    SHAPE_THRIFT_SKIP_BOOL_LIST_BYTES_lost = false ∧
     SHAPE_THRIFT_DELTA_CHECKED_ADD_lost = false ∧ SHAPE_THRIFT_LIST_SIZE_I32_lost = false ∧
     SHAPE_THRIFT_LIST_EMPTY_HEADER = 0 ∧ SHAPE_THRIFT_STOP_IGNORES_DELTA = 0 ∧
     SHAPE_ZIGZAG_THRIFT = 1 ∧ SHAPE_ZIGZAG_AVRO_CURSOR = 1 ∧ SHAPE_ZIGZAG_AVRO_STREAM = 1 ∧ SHAPE_ZIGZAG_BITREADER = 1 ∧
